@@ -32,11 +32,11 @@ def run(ctx: Ctx) -> None:
     holder = {}
 
     def meth(fr, recv, name, args, kwargs, node):
-        if isinstance(recv, SObj) and recv.pytype == "Lark" and name == "parse_interactive":
+        if isinstance(recv, SObj) and recv.pytype == "Lark" and name in ("parse_interactive", "parse"):
             # the lexer callbacks fill the buffer while lark tokenises
             inst = holder["inst"]
             inst.attrs["_comments"].extend(holder["tokens"])
-            return recv.attrs["_ip"]
+            return recv.attrs["_ip"] if name == "parse_interactive" else SObj("Tree", {"children": [], "data": "start", "meta": SObj("Meta", {})})
         if isinstance(recv, SObj) and recv.pytype == "InteractiveParser":
             if name == "iter_parse":
                 return []
@@ -50,7 +50,7 @@ def run(ctx: Ctx) -> None:
 
     def make():
         ip = SObj("InteractiveParser", {"parser_state": SObj("ParserState", {"value_stack": []})}, methods=("iter_parse", "resume_parse"))
-        lalr = SObj("Lark", {"_ip": ip}, methods=("parse_interactive",))
+        lalr = SObj("Lark", {"_ip": ip}, methods=("parse_interactive", "parse"))
         inst = pai.Inst("parser.Parser")
         inst.attrs.update({"expand_includes": False, "include_comments": True, "_comments": [models.token("COMMENT", SStr.atom("STALE"), line=99)], "lalr": lalr, "kwargs": HDict()})
         holder["inst"] = inst
@@ -84,31 +84,64 @@ def run(ctx: Ctx) -> None:
         root = node("start", 3, [comp, empty])
         return root, {"comp": comp, "a1": a1, "a2": a2, "proj": proj, "mdc": mdc, "sp": sp, "body": body}
 
-    h = {}
+    # every scenario goes through Parser.parse (lark replaced by a stub that hands back the scenario's tree and
+    # fills the comment buffer), on a parser built by the real constructor: whatever state parse() prepares
+    # for the attachment pass exists
+    def scenario_b():
+        # the last comments of the document stand between a block's opener and its first item; nothing follows
+        a1 = node("attr", 6)
+        a2 = node("attr", 7)
+        body = node("composite_body", 6, [a1, a2])
+        comp = node("composite", 3, [node("composite_type", 3), body], end_line=8)
+        root = node("start", 3, [comp])
+        return root, {"comp": comp, "a1": a1, "a2": a2, "body": body}
 
-    def make2():
-        root, nodes = scenario()
-        inst = pai.Inst("parser.Parser")
-        cd = HDict({1: C("l1"), 2: C("l2"), 5: C("l5"), 9: C("l9"), 11: C("l11"), 13: C("l13"), 20: C("l20")})
-        inst.attrs["comments_dict"] = cd
-        h["nodes"], h["cd"] = nodes, cd
-        # the pending table is an attribute of the parser; a version that also takes it as a parameter gets the same object
-        extra = {"comments_dict": cd} if "comments_dict" in {a.arg for a in repo.func("parser.Parser._assign_comments").args.args} else {}
-        return inst, [root], extra
+    scenarios = [
+        ("comments before, between, inside and after blocks", scenario, {1: "l1", 2: "l2", 5: "l5", 9: "l9", 11: "l11", 13: "l13", 20: "l20"}, {"comp": ["l1", "l2"], "a1": None, "a2": ["l5"], "proj": ["l9"], "mdc": ["l11"], "sp": ["l13"], "body": None}, [20]),
+        ("the last comments stand between a block opener and its first item", scenario_b, {4: "m4", 5: "m5"}, {"comp": None, "a1": ["m4", "m5"], "a2": None, "body": None}, []),
+    ]
+    # comment text as the lexer delivers it: no blank at either end, so that stripping leaves it as it is
+    Cs = lambda tag: SStr(["# ", Atom(f"COMMENT_{tag}", excludes=frozenset("\n"), free=True, nonempty=True, last=models.ALNUM)])
+    lac = repo.loc("parser", repo.func("parser.Parser._assign_comments"))
+    for sname, mk_scn, comment_lines, want_tags, pending_after in scenarios:
+        h: dict = {}
 
-    I2 = e.interp(allow_fork=False, max_depth=30)
-    outs = I2.explore("parser.Parser._assign_comments", make2)
-    if len(outs) != 1 or outs[0].kind != "return":
-        ctx.finding("K2", "_assign_comments scenario", repo.loc("parser", repo.func("parser.Parser._assign_comments")), f"raises {outs[0].exc}{outs[0].value}")
-    else:
+        def meth2(fr, recv, name, args, kwargs, node_, h=h, comment_lines=comment_lines):
+            if isinstance(recv, SObj) and recv.pytype == "Lark" and name in ("parse_interactive", "parse"):
+                h["inst"].attrs["_comments"].extend(models.token("COMMENT", Cs(tag), line=ln) for ln, tag in comment_lines.items())
+                return recv.attrs["_ip"] if name == "parse_interactive" else h["root"]
+            if isinstance(recv, SObj) and recv.pytype == "InteractiveParser":
+                if name == "iter_parse":
+                    return []
+                if name == "resume_parse":
+                    return h["root"]
+            return NotImplemented
+
+        def lark_open(fr, so, a, k):
+            ip = SObj("InteractiveParser", {"parser_state": SObj("ParserState", {"value_stack": []})}, methods=("iter_parse", "resume_parse"))
+            return SObj("Lark", {"_ip": ip}, methods=("parse_interactive", "parse"))
+
+        I2 = e.interp(stubs={"hook:method": meth2, "ext:lark.Lark": pai.ModRef("ext:lark.Lark"), "ext:lark.Lark.open": lark_open, "global:parser.lark_cython": None}, allow_fork=False, max_depth=30)
+
+        def make2(h=h, mk_scn=mk_scn):
+            h["root"], h["nodes"] = mk_scn()
+            h["inst"] = I2.instantiate("parser.Parser", [], {"expand_includes": False, "include_comments": True})
+            return h["inst"], ["<text>"], {}
+
+        outs = I2.explore("parser.Parser.parse", make2)
+        if len(outs) != 1 or outs[0].kind != "return":
+            ctx.finding("K2", f"attachment: {sname}", lac, f"Parser.parse raises {outs[0].exc}{outs[0].value} on the scenario")
+            continue
         nd = h["nodes"]
+        strip = lambda c: c  # comments are stored stripped; C() atoms have no surrounding blanks
         got = {k: nd[k].attrs["meta"].attrs.get("comments") for k in nd}
-        want = {"comp": [C("l1"), C("l2")], "a1": None, "a2": [C("l5")], "proj": [C("l9")], "mdc": [C("l11")], "sp": [C("l13")], "body": None}
-        ctx.check(got == want, "K2", "attachment by line number", repo.loc("parser", repo.func("parser.Parser._assign_comments")), "block <- comments above it; attribute <- comment since the previous node; projection <- comments inside; pair <- its line", f"attachments {got}, expected {want}")
+        want = {k: ([Cs(t) for t in v] if v is not None else None) for k, v in want_tags.items()}
+        ctx.check(got == want, "K2", f"attachment: {sname}", lac, "block <- comments above it; attribute <- comments since the previous node; projection <- comments inside; pair <- its line", f"attachments {got}, expected {want}: a comment is attached to the wrong node or to none (and is then lost on output)")
         allc = [c for v in got.values() if v for c in v]
-        ctx.check(len(allc) == len(set(map(repr, allc))), "K2", "no comment attached twice", repo.loc("parser", repo.func("parser.Parser._assign_comments")), "", f"{allc}")
-        ctx.check(list(h["cd"].keys()) == [20], "K2", "attached comments are removed from the pending table; a trailing comment stays pending", repo.loc("parser", repo.func("parser.Parser._assign_comments")), "", f"pending after the pass: {list(h['cd'].keys())}")
-        ctx.check(all(repr(c).count("COMMENT_") == 1 for c in allc), "K2", "comment text unchanged", repo.loc("parser", repo.func("parser.Parser._assign_comments")), "", "")
+        ctx.check(len(allc) == len(set(map(repr, allc))), "K2", f"no comment attached twice: {sname}", lac, "", f"{allc}")
+        cd = h["inst"].attrs.get("comments_dict")
+        ctx.check(isinstance(cd, dict) and list(cd.keys()) == pending_after, "K2", f"attached comments leave the pending table: {sname}", lac, "", f"pending after the pass: {list(cd.keys()) if isinstance(cd, dict) else cd}")
+        ctx.check(all(repr(c).count("COMMENT_") == 1 for c in allc), "K2", f"comment text unchanged: {sname}", lac, "", "")
 
     # ---- K3 ------------------------------------------------------------------------------------------
     ctx.rule("K3", "CommentsTransformer / add_metadata_comments / composite() move comments into __comments__ unchanged under the right key", 3)
